@@ -689,13 +689,31 @@ class Printer:
         return out
 
 
-def fortran_text(name, stmts, decls):
-    lines = ["subroutine %s()" % name]
-    for v, ty, bs in decls:
-        if bs:
-            lines.append("  %s, dimension(%s) :: %s" % (ty, ", ".join("%d:%d" % b for b in bs), v))
+def decl_line(v, ty, bs, form, arg):
+    """form: None / ("explicit",) | ("assumed", [lb or None per dimension]) | ("alloc",)"""
+    attrs = []
+    if bs:
+        kind = form[0] if form else "explicit"
+        if kind == "explicit":
+            attrs.append("dimension(%s)" % ", ".join("%d:%d" % b for b in bs))
+        elif kind == "assumed":
+            attrs.append("dimension(%s)" % ", ".join(":" if lb is None else "%d:" % lb for lb in form[1]))
+        elif kind == "alloc":
+            attrs = ["allocatable", "dimension(%s)" % ", ".join(":" for _ in bs)]
         else:
-            lines.append("  %s :: %s" % (ty, v))
+            raise ValueError(form)
+    if arg:
+        attrs.append("intent(inout)")
+    return "  %s :: %s" % (", ".join([ty] + attrs), v)
+
+
+def fortran_text(name, stmts, decls, forms=None, args=False):
+    """A routine whose variables are locals (args=False) or all dummy arguments (args=True); `forms` gives the
+    declaration form of the arrays (assumed-shape / explicit lower bound / allocatable need args=True)."""
+    forms = forms or {}
+    lines = ["subroutine %s(%s)" % (name, ", ".join(v for v, _, _ in decls) if args else "")]
+    for v, ty, bs in decls:
+        lines.append(decl_line(v, ty, bs, forms.get(v), args))
     lines += Printer(decls).ps(stmts)
     lines.append("end subroutine %s" % name)
     return "\n".join(lines) + "\n"
